@@ -128,6 +128,7 @@ func GenBlockPlan(t *rapid.T, profile string, ops int) *BlockPlan {
 	p.Txs = rapid.SampledFrom([]int{0, 1, 3}).Draw(t, "txs")
 	p.Blobs = rapid.SampledFrom([]int{0, 0, 1, 6}).Draw(t, "blobs")
 	p.DefaultPayload = rapid.IntRange(0, 3).Draw(t, "default_payload") == 0
+	p.PayloadShape = rapid.SampledFrom([]int{0, 0, 0, 0, 0, 1, 2, 2}).Draw(t, "payload_shape")
 	return p
 }
 
